@@ -48,6 +48,16 @@ CLAIMED = {
     note='TODAY depends on the clock (oracle; checked by reading the clock before and after). dateutil/datetime/calendar are modelled, tied by '
          'correspondence. Known finding: datedif_Y_by_days.',
     technique='Coq proof (lia with euclidean division, kernel cycle sweep, induction) + vm_compute correspondence', ref='6/C15'),
+ 'C16': dict(
+    text='Kernel-exhaustive Coq theorems (vm_compute sweeps lifted with forallb_forall; the grid is part of each statement) over a bit-exact '
+         'PrimFloat model of _round/_roundup/_rounddown/_normalize_float_number: on sign x {0,1,2,7,12,99,100,1234} x <=2 fractional digits x '
+         'digit counts -3..6, ROUND equals half-away-from-zero on every non-tie, ROUNDUP/ROUNDDOWN are correct on every positive decimal that needs '
+         'rounding, x% is the nearest double of x/100; refutation theorems give kernel-computed witnesses for the three defect classes. '
+         'Correspondence (bit-for-bit) on 4-digit grids, tie-shaped decimals and random 5-15 digit decimals via direct calls, cells, overrides, literals.',
+    note='Grid theorems are bounded (not all 15-digit decimals). The model relies on the kernel\'s IEEE binary64 primitives and on q2f (exact '
+         'rational -> nearest double, written in Z arithmetic). Known findings: round_tie_not_half_away, roundupdown_negative_direction, '
+         'roundupdown_representable_float_product.',
+    technique='Coq kernel-exhaustive sweep (vm_compute + forallb_forall) + bit-exact vm_compute correspondence', ref='6/C16'),
 }
 
 ids = [json.loads(l)['id'] for l in open('/verif/properties.jsonl')]
